@@ -259,7 +259,13 @@ class ConformationContainer:
                 Group.get_covalently_coupled_groups):
             # check if we should share determinants
             if self.parameters.shared_determinants:
-                self.share_determinants(all_groups)
+                # the sign of a determinant depends on the charge of the
+                # group that owns it: share among acids and among bases only
+                for sign in (-1, 1):
+                    same_sign = [
+                        g for g in all_groups if g.charge * sign > 0]
+                    if len(same_sign) > 1:
+                        self.share_determinants(same_sign)
             # find the group that has the highest pKa value
             first_group = max(all_groups, key=lambda g: g.pka_value)
             # In case of acids
